@@ -431,14 +431,20 @@ def c06(tier, seed):
                     out.append(dict(id="c06s-%d" % k, deploy=dep("cw20", feed=feed, engine=dict(plr=0, liqfee=5)), ops=ops))
                     k += 1
     # dust positions: the penalty / fee amounts (or even the quote exchanged) round to zero although
-    # the ratios are non-zero; price collapses of increasing depth
+    # the ratios are non-zero; the price collapses in steps (a short larger than the base reserve of a
+    # snapshot inside the 15-minute window cannot be opened), each step by another trader, 901 s apart
+    collapse = {1: [("tr2", 3000)], 2: [("tr2", 4500), ("tr3", 2500)], 3: [("tr2", 4500), ("tr3", 2500), ("liq", 1000)]}
+    oracle_after = {1: 490, 2: 90, 3: 40}
     for plr in (0, 25, 100):
-        for m in (3, 5, 8, 15, 40):
-            for (push, oracle) in ((3000, 490), (6000, 160), (8000, 40)):
+        for m in (8, 15, 25, 40):
+            for depth in (1, 2, 3):
                 for fin in ("liq", "close"):
-                    ops = [block(15), opn("tr1", "buy", m, 200), opn("tr2", "sell", push, 1000), block(901),
-                           tx("feed", "append_price", "owner", dict(key="ETH", price=oracle, t=100916))]
-                    ops += [liq("liq", "tr1"), block(15), liq("liq", "tr1")] if fin == "liq" else [close("tr1"), liq("liq", "tr1")]
+                    ops = [block(901), opn("tr1", "buy", m, 200)]
+                    for (who, pm) in collapse[depth]:
+                        ops += [block(901), opn(who, "sell", pm, 1000)]
+                    ops += [block(901), tx("feed", "append_price", "owner", dict(key="ETH", price=oracle_after[depth], t=100916)),
+                            query("engine", "margin_ratio", dict(vamm="vamm1", trader="tr1"))]
+                    ops += [liq("stranger", "tr1"), block(15), liq("stranger", "tr1")] if fin == "liq" else [close("tr1"), liq("stranger", "tr1")]
                     out.append(dict(id="c06d-%d" % k, deploy=dep("cw20", engine=dict(plr=plr, liqfee=5)), ops=ops))
                     k += 1
     # oracle moved inside the TWAP window: spot close to the *old* oracle price, far from the new one
